@@ -501,3 +501,210 @@ func TestVerifC05Retention(t *testing.T) {
 	run.Floor("series", 20)
 	run.Floor("packets_dispatched", int64(20*5*N))
 }
+
+// ---------------------------------------------------------------------------------
+// (3) a hostile peer that never reads its replies must not block anyone else
+// ---------------------------------------------------------------------------------
+
+// c05GatedWire is a hostile connection whose peer does not read: every Write by the
+// server parks until release() (what a full socket send buffer does; the transports
+// set no write deadline).
+type c05GatedWire struct {
+	c05Wire
+	gate    chan struct{}
+	blocked atomic.Int64
+}
+
+func (w *c05GatedWire) Write(p []byte) (int, error) {
+	w.blocked.Add(1)
+	<-w.gate
+	w.blocked.Add(-1)
+	return w.c05Wire.Write(p)
+}
+
+func TestVerifC05SlowReader(t *testing.T) {
+	vk.Quiet()
+	run := vk.Start(t, "C05", "slow-reader")
+	defer run.Finish()
+	run.Rule("party 1: a fresh unauthenticated connection whose peer never reads sends one packet that makes the server write to it (heartbeat, refused/anonymous handshake, malformed handshake, refused tunnel-open, malformed tunnel-open, refused duplex command, config-get, DNS request, ...); once that write is parked in the transport (gate counter), party 2 - another fresh connection with a finite stream - is accepted, has a heartbeat, a handshake, a command and a tunnel-open dispatched, is looked up and closed, and a third connection is accepted and closed. Every party-2 step must return; a step whose goroutine sits in the same lock wait with an identical stack in three dumps 100 ms apart while party 1's write is still parked is blocked for as long as party 1 pleases. distinct = (party-1 packet kind, party-2 step); non-trivial = party 1's write was parked while party 2 ran")
+	js := func(v any) []byte { b, _ := json.Marshal(v); return b }
+	hostileKinds := []struct {
+		name  string
+		frame []byte
+	}{
+		{"heartbeat", []byte{0x03}},
+		{"heartbeat-compressed-flag", []byte{0x43}},
+		{"handshake-anonymous", gen.Frame(0x01, js(map[string]any{"client_id": 0, "token": "new-client", "version": "3.0", "protocol": "tcp", "connection_type": "control"}))},
+		{"handshake-refused", gen.Frame(0x01, js(map[string]any{"client_id": 31234567, "version": "3.0", "protocol": "tcp"}))},
+		{"handshake-malformed", gen.Frame(0x01, []byte(`{"client_id":"x`))},
+		{"tunnel-open-refused", gen.Frame(0x20, js(map[string]any{"mapping_id": "pm-x", "tunnel_id": "t-x", "secret_key": "k"}))},
+		{"tunnel-open-malformed", gen.Frame(0x20, []byte(`[`))},
+		{"cmd-duplex-refused", gen.Frame(0x10, gen.CmdJSON(70, "sr-1", `{}`))},
+		{"cmd-config-get", gen.Frame(0x10, gen.CmdJSON(50, "sr-2", `{}`))},
+		{"cmd-http-domain", gen.Frame(0x10, gen.CmdJSON(83, "sr-3", `{"subdomain":"a","base_domain":"tunnox.net"}`))},
+		{"cmd-dns-resolve", gen.Frame(0x10, gen.CmdJSON(120, "sr-4", `{"domain":"a.b","qtype":1,"target_client_id":-1}`))},
+		{"cmd-dns-query", gen.Frame(0x10, gen.CmdJSON(121, "sr-5", `{"query_id":"q","target_client_id":-1,"raw_query":"AAAA"}`))},
+		{"handshake-then-heartbeat", append(gen.Frame(0x01, js(map[string]any{"client_id": 0, "token": "new-client", "version": "3.0", "protocol": "tcp"})), 0x03)},
+	}
+	rounds := run.Pick(2, 12)
+	victimStream := [][]byte{
+		{0x03},
+		gen.Frame(0x01, js(map[string]any{"client_id": 32345678, "version": "3.0", "protocol": "tcp"})),
+		gen.Frame(0x10, gen.CmdJSON(71, "v-1", `{}`)),
+		gen.Frame(0x20, js(map[string]any{"mapping_id": "pm-v", "tunnel_id": "t-v"})),
+	}
+	stepNames := []string{"accept", "dispatch-heartbeat", "dispatch-handshake", "dispatch-command", "dispatch-tunnel-open", "lookup", "close", "accept+close-third"}
+	hungTotal := 0
+	for round := 0; round < rounds && hungTotal < 4; round++ {
+		node := c05NewNode(t)
+		for _, hk := range hostileKinds {
+			run.Case("slow-reader|hostile="+hk.name, map[string]any{"round": round})
+			hw := &c05GatedWire{gate: make(chan struct{})}
+			hw.data = hk.frame
+			hw.remote = vk.FakeAddr{Net: "tcp", Str: fmt.Sprintf("10.240.%d.%d:5000", round, len(hk.name))}
+			hstc, err := node.SM.AcceptConnection(hw, hw)
+			if err != nil {
+				run.Count("harness_errors", 1)
+				continue
+			}
+			hDone := make(chan string, 1)
+			go func() { // party 1's read loop
+				p := ""
+				defer func() {
+					if e := recover(); e != nil {
+						p = fmt.Sprint(e)
+					}
+					hDone <- p
+				}()
+				for i := 0; i < 4; i++ {
+					pkt, _, rerr := hstc.Stream.ReadPacket()
+					if rerr != nil || pkt == nil {
+						return
+					}
+					_ = node.SM.HandlePacket(&types.StreamPacket{ConnectionID: hstc.ID, Packet: pkt, Timestamp: time.Now()})
+				}
+			}()
+			// wait until the server's write to party 1 is parked in the transport (or party 1's loop ended without writing)
+			parked := false
+			hEnded := false
+			wd := time.Now().Add(20 * time.Second)
+			for !parked && !hEnded && time.Now().Before(wd) {
+				if hw.blocked.Load() > 0 {
+					parked = true
+					break
+				}
+				select {
+				case p := <-hDone:
+					hEnded = true
+					if p != "" {
+						run.Violation("C05:slow-reader|panic|hostile="+hk.name+"|"+c05NumRe.ReplaceAllString(c05Clip(p, 60), "N"), map[string]any{"panic": p})
+					}
+				default:
+					time.Sleep(200 * time.Microsecond)
+				}
+			}
+			run.Eval(1)
+			if !parked {
+				run.Count("hostile_kind_without_parked_write", 1)
+				run.Observe("no_parked_write:"+hk.name, "the server wrote nothing to party 1 for this packet")
+				close(hw.gate)
+				if !hEnded {
+					run.Count("watchdog", 1)
+				}
+				_ = node.SM.CloseConnection(hstc.ID)
+				continue
+			}
+			run.Count("hostile_writes_parked", 1)
+			// party 2
+			var step atomic.Int64
+			var vPanic atomic.Value
+			victim := func() {
+				defer func() {
+					if e := recover(); e != nil {
+						vPanic.Store(fmt.Sprint(e))
+					}
+				}()
+				var data []byte
+				for _, f := range victimStream {
+					data = append(data, f...)
+				}
+				vw := &c05Wire{data: data, remote: vk.FakeAddr{Net: "tcp", Str: fmt.Sprintf("10.241.%d.%d:5001", round, len(hk.name))}}
+				step.Store(0)
+				vstc, err := node.SM.AcceptConnection(vw, vw)
+				if err != nil {
+					return
+				}
+				for i := range victimStream {
+					step.Store(int64(1 + i))
+					pkt, _, rerr := vstc.Stream.ReadPacket()
+					if rerr != nil || pkt == nil {
+						break
+					}
+					_ = node.SM.HandlePacket(&types.StreamPacket{ConnectionID: vstc.ID, Packet: pkt, Timestamp: time.Now()})
+				}
+				step.Store(5)
+				_, _ = node.SM.GetConnection(vstc.ID)
+				step.Store(6)
+				_ = node.SM.CloseConnection(vstc.ID)
+				vw.Close()
+				step.Store(7)
+				tw := &c05Wire{remote: vk.FakeAddr{Net: "tcp", Str: "10.242.0.1:5002"}}
+				if t3, err := node.SM.AcceptConnection(tw, tw); err == nil {
+					_ = node.SM.CloseConnection(t3.ID)
+				}
+				tw.Close()
+				step.Store(8)
+			}
+			res := gen.CloseAsync(victim, 300*time.Millisecond, 45*time.Second)
+			stillParked := hw.blocked.Load() > 0
+			st := int(step.Load())
+			switch {
+			case res.Hung && stillParked:
+				hungTotal++
+				sname := "?"
+				if st < len(stepNames) {
+					sname = stepNames[st]
+				}
+				run.Count("victim_blocked", 1)
+				run.Violation("C05:slow-reader|other-connection-blocked|hostile="+hk.name+"|victim-step="+sname, map[string]any{
+					"hostile_packet_hex": fmt.Sprintf("%x", hk.frame), "victim_step": sname, "victim_goroutine_state": res.State, "victim_parked_at": res.Frames,
+					"hostile_write_still_parked": stillParked,
+					"decided_by": "party 2's goroutine in the same lock wait with an identical stack in 3 dumps 100 ms apart while the server's write to party 1 (which never reads) is parked; it can only proceed when party 1 decides to read"})
+			case res.Returned:
+				if stillParked {
+					run.Count("victim_sequences_completed_while_hostile_write_parked", 1)
+					run.Distinct(hk.name + "|all-steps")
+				} else {
+					run.Count("hostile_write_returned_early", 1)
+				}
+				if p, _ := vPanic.Load().(string); p != "" {
+					run.Violation("C05:slow-reader|panic|victim|hostile="+hk.name+"|"+c05NumRe.ReplaceAllString(c05Clip(p, 60), "N"), map[string]any{"panic": p, "victim_step": st})
+				}
+			default:
+				run.Count("victim_undecided", 1) // neither returned nor classified: inconclusive
+				run.Observe("victim_undecided:"+hk.name, map[string]any{"step": st, "hung": res.Hung, "hostile_parked": stillParked})
+			}
+			// party 1 finally reads (or goes away): everything drains
+			close(hw.gate)
+			select {
+			case <-hDone:
+			case <-time.After(45 * time.Second):
+				run.Count("hostile_loop_did_not_end_after_release", 1)
+			}
+			_ = node.SM.CloseConnection(hstc.ID)
+			hw.Close()
+			if res.Hung {
+				break // fresh node for the next round
+			}
+		}
+		node.Close()
+	}
+	if run.Counter("victim_undecided") == 0 && run.Counter("watchdog") == 0 {
+		run.Count("completed", 1)
+	}
+	run.Floor("completed", 1)
+	run.Floor("hostile_writes_parked", 10)
+	if run.Violations() == 0 {
+		run.Floor("victim_sequences_completed_while_hostile_write_parked", 10)
+	}
+}
